@@ -40,6 +40,36 @@ PbText(c, v, r) ==
     ELSE IF c.div = "first" /\ v = c.nlev /\ c.nlev >= 2 /\ ValIdx(c, v - 1, r) >= 2
          THEN (IF i = 1 THEN "-----" ELSE PbName(v, i - 1))
     ELSE PbName(v, i)
+
+---------------------------------------------------------------------------
+(* column layout: which columns the frame has, in which order, which are   *)
+(* removed from the display, and the caller's per-cell border patterns     *)
+---------------------------------------------------------------------------
+\* a column is <<"g", level>> (page_by), <<"s", 0>> (subline_by) or <<"d", k>> (data)
+GroupCols(c) == LET g == (IF HasPB(c) THEN [v \in 1..c.nlev |-> <<"g", v>>] ELSE <<>>) \o (IF HasSub(c) THEN << <<"s", 0>> >> ELSE <<>>)
+                IN IF c.gpos = "rev" THEN [k \in 1..Len(g) |-> g[Len(g) + 1 - k]] ELSE g
+DataCols(c) == [k \in 1..c.ndata |-> <<"d", k>>]
+RECURSIVE Interleave(_, _)
+Interleave(a, b) == IF a = <<>> THEN b ELSE IF b = <<>> THEN a ELSE <<Head(a), Head(b)>> \o Interleave(Tail(a), Tail(b))
+FrameCols(c) ==
+  LET g == GroupCols(c)  dd == DataCols(c)
+      h2 == IF c.ndata \div 2 >= 1 THEN c.ndata \div 2 ELSE 1
+  IN CASE c.gpos = "last" -> dd \o g
+       [] c.gpos = "split" -> Interleave(g, dd)
+       [] c.gpos = "middle" -> SubSeq(dd, 1, h2) \o g \o SubSeq(dd, h2 + 1, Len(dd))
+       [] OTHER -> g \o dd
+IsSpanning(c) == HasPB(c) /\ (~c.newpage \/ c.pbrow # "column")
+RemovedCol(c, col) == col[1] = "s" \/ (col[1] = "g" /\ IsSpanning(c))
+\* positions (in the frame) of the displayed columns, in display order
+KeptIdx(c) == LET f == FrameCols(c) IN SelectSeq([k \in 1..Len(f) |-> k], LAMBDA k : ~RemovedCol(c, f[k]))
+\* the harness' border patterns over ORIGINAL rows/columns (1-based): per column the style on odd columns,
+\* per cell the style where row + column is even
+UPat(c, style, r, j) == CASE c.ushape = "col" -> (IF (j - 1) % 2 = 0 THEN style ELSE "")
+                          [] c.ushape = "matrix" -> (IF (r - 1 + j - 1) % 2 = 0 THEN style ELSE "")
+                          [] OTHER -> style
+UVec(c, style, r) == LET kk == KeptIdx(c) IN [k \in 1..Len(kk) |-> UPat(c, style, r, kk[k])]
+StyleVec(c, style) == [k \in 1..Len(KeptIdx(c)) |-> style]
+
 RECURSIVE CountTrue(_, _)
 CountTrue(s, r) == IF r = 0 THEN 0 ELSE (IF s[r] THEN 1 ELSE 0) + CountTrue(s, r - 1)
 SubText(c, r) == LET i == CountTrue(c.schg, r) IN "~S" \o ToString(IF c.div = "cycle" THEN ((i - 1) % 2) + 1 ELSE i) \o "~"
@@ -52,7 +82,10 @@ Derive(c) ==
         pb |-> [r \in 1..c.n |-> [v \in 1..c.nlev |-> IF HasPB(c) THEN (IF PbText(c, v, r) = "-----" THEN "" ELSE PbText(c, v, r)) ELSE ""]],
         grp |-> [r \in 1..c.n |-> IF HasPB(c) THEN [v \in 1..c.nlev |-> PbText(c, v, r)] ELSE <<>>],
         sub |-> [r \in 1..c.n |-> IF HasSub(c) THEN SubText(c, r) ELSE ""],
-        subtxt |-> [r \in 1..c.n |-> IF HasSub(c) THEN SubText(c, r) ELSE ""]]
+        subtxt |-> [r \in 1..c.n |-> IF HasSub(c) THEN SubText(c, r) ELSE ""],
+        \* the caller's border matrices over the displayed columns, and border_top's first row as written
+        utopm |-> [r \in 1..c.n |-> UVec(c, c.utop, r)], ubotm |-> [r \in 1..c.n |-> UVec(c, c.ubot, r)],
+        utop0raw |-> IF c.ushape = "scalar" THEN <<>> ELSE [j \in 1..Len(FrameCols(c)) |-> UPat(c, c.utop, 1, j)]]
 
 
 =============================================================================
